@@ -24,7 +24,8 @@ EXTENDS Integers, Sequences, FiniteSets, TLC
 CONSTANT MethodNames
 
 \* a program: [body: MethodNames -> [k, callee], sites: sequence of [callee, c, ctx], order: sequence of MethodNames]
-\* (ctx: the syntactic position of a top-level call - plain statement, if / while condition, argument, inside a block)
+\* (ctx: the syntactic position of a top-level call - plain statement, if / while condition, argument, inside a block,
+\*  "twice": the call written two times on one row, i.e. two call sites with the same row)
 Callers(prog, m) == {n \in MethodNames : prog.body[n].k = "call" /\ prog.body[n].callee = m}
 
 RECURSIVE ParamT(_, _, _)
